@@ -363,6 +363,31 @@ def r04_3(ctx: Ctx, rep: Report) -> None:  # noqa: C901
         rep.ok("Acl.delete_shadow: removal sites", "only the report filter removes items")
 
 
+def kept_items_stay_themselves(ctx: Ctx, rep: Report, rid: str = "R04.9") -> None:
+    """"Remarks, relative order, sequence numbers and grouping of the remaining items are untouched": the items the ACL
+    holds after the removal are the items it held before, minus the removed ones.  `delete_shadow` that filters a COPY
+    of the ACL which it has flattened (`copy()`; `ungroup()`), regroups it only by `group_by`, and adopts the copy's items,
+    hands the ACL new objects: blocks the user made by hand dissolve, every rebuilt block loses uuid, note and number, every
+    kept entry gets a new identifier."""
+    rep.rule(rid)
+    f = ctx.func("Acl.delete_shadow")
+    rep.instance()
+    copies = set()
+    for x in own_nodes(f.node):
+        if isinstance(x, (ast.Assign, ast.AnnAssign)) and x.value is not None and isinstance(x.value, ast.Call) and isinstance(x.value.func, ast.Attribute) and x.value.func.attr in ("copy", "__class__") and src(x.value.func.value) == "self":
+            t = x.targets[0] if isinstance(x, ast.Assign) else x.target
+            if isinstance(t, ast.Name):
+                copies.add(t.id)
+    flattened = {c for c in copies if any(isinstance(y, ast.Call) and isinstance(y.func, ast.Attribute) and y.func.attr == "ungroup" and src(y.func.value) == c for y in own_nodes(f.node))}
+    adopted = [x for x in own_nodes(f.node) if isinstance(x, ast.Assign) and any(isinstance(t, ast.Attribute) and src(t.value) == "self" and t.attr.lstrip("_") == "items" for t in x.targets) and any(isinstance(z, ast.Attribute) and z.attr.lstrip("_") == "items" and src(z.value) in copies for z in ast.walk(x.value))]
+    if adopted and flattened:
+        rep.violation("Acl.delete_shadow", "the ACL adopts the items of a flattened copy of itself", "the removal is done on a copy of the ACL that was ungrouped, regrouped only by group_by, and whose items then replace the ACL's own: blocks made by hand (items=[AceGroup(...)], no group_by) dissolve into loose lines, rebuilt blocks lose identifier, note and sequence number, and every kept entry gets a new identifier", where(f, adopted[0]), inp="acl = Acl(name='A', items=[AceGroup('remark WEB\\npermit tcp any any\\npermit tcp any any eq 80'), Ace('deny ip any any')]); acl.delete_shadow(); acl.items == [Remark, Ace, Ace]")
+    elif adopted:
+        rep.ok("Acl.delete_shadow", "works on a copy but does not flatten it", where=where(f, adopted[0]))
+    else:
+        rep.ok("Acl.delete_shadow", "removes from the ACL's own items", where=where(f))
+
+
 def run(ctx: Ctx, rep: Report, tier: str) -> None:
     # R04.0 premise: the pairwise test is sound on every clause C03 decides (an unsound shadow_of makes every removal unsafe)
     from . import c03
@@ -371,6 +396,7 @@ def run(ctx: Ctx, rep: Report, tier: str) -> None:
     c03.run(ctx, sub, tier)
     rep.absorb(sub, "R04.0")
     r04_1(ctx, rep)
+    kept_items_stay_themselves(ctx, rep)
     rep.rule("R04.2")
     check_strictly_above(ctx, rep, analyse_shading(ctx))
     r04_3(ctx, rep)
